@@ -1,6 +1,8 @@
 import GB.C06.Proofs
 import GB.C06.ProofsSvc
 import GB.C06.Compose
+import GB.C06.ProofsElem
+import GB.Generated.Facts
 /-
   C06 — property theorems.  `PatState` / `SvcState` are the executable models of
   routing/pattern_router.go and routing/service_router.go (GB/C06/Model.lean; the gbdriver runs the
@@ -491,3 +493,118 @@ example : routeHTTPm toyParse (fun _ => true)
     (PatState.init.run (validC toyParse) [.watch [116], .update [116] toyDesc]).static [71, 69, 84] [47, 97] =
       .found [116] 1 ⟨0, 0, some 0, [71, 69, 84], [47, 97]⟩ [] := by decide
 end
+
+
+/-! ## Element level (round 5, wave 3): `container/list` elements with their own identity
+
+  `EState` (GB/C06/Elem.lean) models `mutablePatternRoutingTable` one level below `PatState`: a list element is the serial
+  number of the `PushBack` that allocated it, a back-link (`methodPatternRoutes`) is (HTTP method, element id), and
+  `removeRoute` / `link.link.Value = …` act on the element with that ID, whoever's routes it carries.  `erase` forgets
+  the ids.  `Tied rt n ls` = the back-links `ls` of target `n` are *attached*: in the list of the link's method the
+  element with the link's id is exactly the element carrying `n`'s routes. -/
+
+/-- **One operation commutes with forgetting element identities**, from ANY element-level state whose back-links are
+    attached — not only reachable ones: the (method, target name) identification of `PatState` loses nothing. -/
+theorem C06_elem_step_refines (valid : Bytes → Bool) (st : EState) (op : Op) (ht : AllTied st) :
+    ((st.step valid op).1).erase = (st.erase.step valid op).1 ∧ (st.step valid op).2 = (st.erase.step valid op).2 :=
+  step_sim valid st op ht
+
+/-- The three primitives, for all tables: through an attached link, `lst.Remove(link)` is "drop the target's element",
+    `link.Value = v` is "replace the target's element in place"; `PushBack` needs no hypothesis. -/
+theorem C06_elem_primitives (rt : ETable) (f : Bool) (m : HMethod) (i : Nat) (g : Group)
+    (h : ∀ e ∈ sliceOf (rt m), (e.id = i ↔ e.val.name = g.name)) :
+    eCommit (eRemoveRoute rt f m i).1 = (removeRoute (eCommit rt) f m g.name).1 ∧
+    (eRemoveRoute rt f m i).2 = (removeRoute (eCommit rt) f m g.name).2 ∧
+    eCommit (eSetValue rt m i g) = setGroup (eCommit rt) m g ∧
+    (∀ j, eCommit (eAddRoute rt m j g) = addRoute (eCommit rt) m g) :=
+  ⟨(eRemoveRoute_sim rt f m i g.name h).1, (eRemoveRoute_sim rt f m i g.name h).2, eSetValue_sim rt m i g h,
+   fun j => eAddRoute_sim rt m j g⟩
+
+/-- **Whole histories**: the committed snapshot of the element-level table is the snapshot of `PatState` — hence, by
+    `C06_snapshot_is_latest`, per HTTP method exactly the routes of the latest description of every live target —
+    provided the back-links are attached after every prefix of the history. -/
+theorem C06_elem_refines_given_attached (valid : Bytes → Bool) :
+    ∀ (h : List Op) (st : EState), (∀ k, AllTied (st.run valid (h.take k))) →
+      (st.run valid h).erase = st.erase.run valid h
+  | [], st, _ => rfl
+  | op :: ops, st, hall => by
+    have h0 : AllTied st := by simpa [EState.run] using hall 0
+    have hs := (step_sim valid st op h0).1
+    have ih := C06_elem_refines_given_attached valid ops (st.step valid op).1 (fun k => by
+      have := hall (k + 1)
+      simpa [EState.run, List.take_succ_cons] using this)
+    show ((st.step valid op).1.run valid ops).erase = (st.erase.step valid op).1.run valid ops
+    rw [ih, hs]
+
+/-! ### what goes wrong without attachedness: the seeded change C03-m9, kernel-checked
+
+  `EState.runStale`: `targetLinks` as a per-target map HTTP method → element whose entry is NOT deleted when the method
+  vanishes from the target's description (and a `removeRoute` that tolerates a missing list).  History: watch a;
+  v1 = {GET /x}; v2 = {PUT /x}; v3 = {GET /x}. -/
+
+def m9GET : Bytes := [71, 69, 84]
+def m9PUT : Bytes := [80, 85, 84]
+def m9desc (v : Nat) (hm : Bytes) : Desc := ⟨[97], v, [⟨[83], [⟨[47, 83, 47, 77], [⟨hm, [47, 120]⟩]⟩]⟩]⟩
+def m9hist : List Op :=
+  [.watch [97], .update [97] (m9desc 1 m9GET), .update [97] (m9desc 2 m9PUT), .update [97] (m9desc 3 m9GET)]
+
+/-- After v2 the stale variant keeps the back-link (GET, element 0) although element 0 is in no list any more
+    (`attachedB = false`); v3 then "updates in place" that detached element: the committed table has NO list for GET,
+    although the latest description of the live target "a" has the binding `GET /x`; its per-target map still names the
+    detached element. -/
+theorem C06_stale_link_loses_routes :
+    attachedB (EState.init.runStale (fun _ => true) (m9hist.take 3)).routes
+      (sliceOf ((EState.init.runStale (fun _ => true) (m9hist.take 3)).links [97])) = false ∧
+    (EState.init.runStale (fun _ => true) m9hist).static m9GET = none ∧
+    (EState.init.runStale (fun _ => true) m9hist).links [97] = some [(m9GET, 0), (m9PUT, 1)] ∧
+    built (fun _ => true) (m9desc 3 m9GET) m9GET = some [⟨0, 0, some 0, m9GET, [47, 120]⟩] := by
+  decide
+
+/-- The code as it is (`EState.run`): after v2 the GET link is gone, v3 allocates a NEW element (id 2) and re-links it;
+    the committed GET list is the latest description's route; all back-links are attached after every step. -/
+theorem C06_relink_after_method_returns :
+    (EState.init.run (fun _ => true) (m9hist.take 3)).links [97] = some [(m9PUT, 1)] ∧
+    (EState.init.run (fun _ => true) m9hist).links [97] = some [(m9GET, 2)] ∧
+    (EState.init.run (fun _ => true) m9hist).static m9GET = some [⟨[97], 3, [⟨0, 0, some 0, m9GET, [47, 120]⟩]⟩] ∧
+    (EState.init.run (fun _ => true) m9hist).static m9PUT = none ∧
+    (List.range 5).all (fun k =>
+      tiedB (EState.init.run (fun _ => true) (m9hist.take k)).routes [97]
+        (sliceOf ((EState.init.run (fun _ => true) (m9hist.take k)).links [97]))) = true := by
+  decide
+
+/-- `tiedB` decides `Tied` -/
+theorem C06_tiedB_iff (rt : ETable) (n : Name) (ls : List Link) : tiedB rt n ls = true ↔ Tied rt n ls := by
+  simp only [tiedB, Tied, List.all_eq_true, beq_iff_eq, decide_eq_decide]
+
+/-! ### the source statements the models were written against (regenerated by extract/c06.go on every check) -/
+
+/-- `addTarget` drops the back-link of an HTTP method that vanished from the description (`removeRoute` + `continue`
+    BEFORE the append to `newMethodLinks`), updates surviving elements in place and marks them handled, appends fresh
+    elements for the remaining methods, then overwrites `targetLinks[target.Name]`; `removeTarget` unlinks every element
+    and deletes the per-target entry; `removeRoute` deletes the map key of an emptied list; `commit` clones every list;
+    a back-link is (method, *list.Element) kept in a per-target SLICE. -/
+theorem C06_facts_table_maintenance :
+    GB.Generated.c06AddTargetStmts =
+      ["0 mt.mu.Lock()", "0 defer mt.mu.Unlock()", "0 newMethodLinks := make([]methodPatternRoutes, 0, len(routes))",
+       "0 _, link := range mt.targetLinks[target.Name]", "1 patternRoutes, ok := routes[link.method]", "1 if !ok",
+       "2 mt.removeRoute(link.method, link.link)", "2 continue",
+       "1 link.link.Value = targetPatternRoutes{target: target, routes: patternRoutes}",
+       "1 newMethodLinks = append(newMethodLinks, link)", "1 delete(routes, link.method)",
+       "0 method, patternRoutes := range routes",
+       "1 link := mt.addRoute(method, targetPatternRoutes{target: target, routes: patternRoutes})",
+       "1 newMethodLinks = append(newMethodLinks, methodPatternRoutes{method: method, link: link})",
+       "0 mt.targetLinks[target.Name] = newMethodLinks", "0 mt.static.Store(mt.commit())"] ∧
+    GB.Generated.c06RemoveTargetStmts =
+      ["0 mt.mu.Lock()", "0 defer mt.mu.Unlock()", "0 _, link := range mt.targetLinks[target]",
+       "1 mt.removeRoute(link.method, link.link)", "0 delete(mt.targetLinks, target)", "0 mt.static.Store(mt.commit())"] ∧
+    GB.Generated.c06RemoveRouteStmts =
+      ["0 lst := mt.routes[method]", "0 lst.Remove(link)", "0 if lst.Len() == 0", "1 delete(mt.routes, method)"] ∧
+    GB.Generated.c06AddRouteStmts =
+      ["0 lst, ok := mt.routes[method]", "0 if !ok", "1 lst = list.New()", "1 mt.routes[method] = lst",
+       "0 return lst.PushBack(route)"] ∧
+    GB.Generated.c06CommitStmts =
+      ["0 routes := make(map[string]*list.List, len(mt.routes))", "0 method, list := range mt.routes",
+       "1 routes[method] = cloneLinkedList(list)", "0 return &staticPatternRoutingTable{routes: routes}"] ∧
+    "methodPatternRoutes.link *list.Element" ∈ GB.Generated.c06TableFields ∧
+    "mutablePatternRoutingTable.targetLinks map[string][]methodPatternRoutes" ∈ GB.Generated.c06TableFields := by
+  decide
